@@ -12,6 +12,7 @@ import (
 	"github.com/tetratelabs/wazero"
 	"github.com/tetratelabs/wazero/api"
 	"github.com/tetratelabs/wazero/experimental"
+	"github.com/tetratelabs/wazero/experimental/table"
 	"github.com/tetratelabs/wazero/imports/wasi_snapshot_preview1"
 
 	"verifharness/plan"
@@ -320,6 +321,23 @@ func runOne(engine string, d rtDesc, shared wazero.CompilationCache, dir string,
 		}
 		trace = append(trace, line)
 	}
+	// the embedder reaches a function that no export names through the table (experimental/table, the
+	// way host-implemented invoke_* functions do): a NON-exported function whose type usually no export shares
+	trace = append(trace, "lookup table[odd]() -> "+func() (out string) {
+		defer func() {
+			if r := recover(); r != nil {
+				out = fmt.Sprintf("GO PANIC out of table.LookupFunction/Call: %v", r)
+			}
+		}()
+		if mod.IsClosed() {
+			return "module closed"
+		}
+		f := table.LookupFunction(mod, 0, plan.SlotOdd, nil, nil)
+		if _, err := f.Call(cctx); err != nil {
+			return "error: " + strings.TrimSuffix(strings.SplitN(err.Error(), "\n", 2)[0], " (recovered by wazero)")
+		}
+		return "ok"
+	}())
 	if len(tails) > 0 {
 		tcm, err := rt.CompileModule(cctx, tailGuest())
 		if err != nil {
